@@ -99,6 +99,64 @@ fn chunks<E: Elem, N: ArrayLength>(mutable: bool, l: usize) -> Result<CaseInfo, 
     Ok(CaseInfo::new(l > 0, format!("{}:{}", if l / n > 0 { "chunks" } else { "no-chunks" }, if l % n > 0 { "rem" } else { "no-rem" })))
 }
 
+/// The source is a WHOLE heap allocation of exactly `l` elements: any reference or slice the functions create beyond the
+/// source - even a transient one that is never read - is outside the allocation, where the memory monitors can see it.
+fn chunks_tight<E: Elem, N: ArrayLength>(mutable: bool, l: usize) -> Result<CaseInfo, String> {
+    let n = N::USIZE;
+    if n == 0 {
+        return Ok(CaseInfo::new(false, "tight-n0"));
+    }
+    let mut b: Box<[E]> = (0..l).map(|_| E::make()).collect::<Vec<E>>().into_boxed_slice();
+    let ids = ids_of(&b);
+    let src = b.as_ptr() as usize;
+    let sz = core::mem::size_of::<E>();
+    if mutable {
+        let (c, r) = GA::<E, N>::chunks_from_slice_mut(&mut b[..]);
+        if c.len() != l / n || r.len() != l % n || (c.len() > 0 && c.as_ptr() as usize != src) || (r.len() > 0 && r.as_ptr() as usize != src + (l / n) * n * sz) {
+            return Err(format!("chunks_from_slice_mut of a whole allocation of {l}: {} chunks, remainder {}", c.len(), r.len()));
+        }
+        // write through every part (first and last element of each), and through the re-flattened chunk part
+        if !E::ZST {
+            if let Some(x) = r.last_mut() {
+                *x = E::make();
+            }
+            if let Some(x) = r.first_mut() {
+                *x = E::make();
+            }
+            if let Some(ch) = c.last_mut() {
+                ch[n - 1] = E::make();
+            }
+            if let Some(ch) = c.first_mut() {
+                ch[0] = E::make();
+            }
+            let flat = GA::<E, N>::slice_from_chunks_mut(c);
+            if let Some(x) = flat.last_mut() {
+                *x = E::make();
+            }
+        }
+    } else {
+        let (c, r) = GA::<E, N>::chunks_from_slice(&b[..]);
+        if c.len() != l / n || r.len() != l % n {
+            return Err(format!("chunks_from_slice of a whole allocation of {l}: {} chunks, remainder {}", c.len(), r.len()));
+        }
+        let mut seen = Vec::new();
+        for ch in c {
+            seen.extend(ids_of(ch));
+        }
+        seen.extend(ids_of(r));
+        if seen != ids {
+            return Err("chunks and remainder do not list the source's elements in order".into());
+        }
+        let flat = GA::<E, N>::slice_from_chunks(c);
+        if flat.len() != (l / n) * n {
+            return Err("slice_from_chunks: wrong length".into());
+        }
+    }
+    drop(b);
+    ledger::check_exact(&[], 0)?;
+    Ok(CaseInfo::new(l > 0, "tight"))
+}
+
 /// slices longer than u32::MAX cost nothing for zero-sized elements: lengths only (no element is touched)
 fn chunks_huge_zst<N: ArrayLength>(mutable: bool, l: usize) -> Result<CaseInfo, String> {
     let n = N::USIZE;
@@ -197,27 +255,35 @@ macro_rules! for_es {
     ([$($e:ty),*], $E:ident => $body:block) => { $( { type $E = $e; $body } )* };
 }
 
+fn c10_cases<E: Elem, const K: usize>(ctx: &mut Ctx)
+where
+    Const<K>: IntoArrayLength,
+{
+    type N<const K: usize> = ConstArrayLength<K>;
+    let ls: Vec<usize> = if K < 100 { (0..=4 * K + 3).collect() } else {
+        let mut v = vec![0, 1, K - 1, K, K + 1, 2 * K - 1, 2 * K, 2 * K + 1, 4 * K + 3]; v.sort(); v.dedup(); v };
+    for &l in &ls {
+        for mutable in [false, true] {
+            ctx.case(&format!("C10;chunks_from_slice{};N={K};L={l};E={}", if mutable { "_mut" } else { "" }, E::NAME), || chunks::<E, N<K>>(mutable, l));
+            ctx.case(&format!("C10;tight;chunks_from_slice{};N={K};L={l};E={}", if mutable { "_mut" } else { "" }, E::NAME), || chunks_tight::<E, N<K>>(mutable, l));
+        }
+    }
+    if E::NAME == "unit" && K > 0 {
+        for &l in &[u32::MAX as usize - 1, u32::MAX as usize, u32::MAX as usize + 1, (1usize << 32) + 7, (1usize << 33) + 1, (1usize << 40) + K + 1, isize::MAX as usize] {
+            for mutable in [false, true] {
+                ctx.case(&format!("C10;huge-zst{};N={K};L={l}", if mutable { "_mut" } else { "" }), || chunks_huge_zst::<N<K>>(mutable, l));
+            }
+        }
+    }
+    for count in 0..=5usize {
+        ctx.case(&format!("C10;from/into_chunks;N={K};count={count};E={}", E::NAME), || native_chunks::<E, K>(count));
+    }
+}
+
 pub fn run(ctx: &mut Ctx) {
     for_ks!([0, 1, 2, 3, 7, 8, 16, 17, 33, 64, 100, 1024], K => {
         for_es!([u8, P3, u64, (), A16, Tr<0>, B3, A64], E => {
-            type N = ConstArrayLength<K>;
-            let ls: Vec<usize> = if K < 100 { (0..=4 * K + 3).collect() } else {
-                let mut v = vec![0, 1, K - 1, K, K + 1, 2 * K - 1, 2 * K, 2 * K + 1, 4 * K + 3]; v.sort(); v.dedup(); v };
-            for &l in &ls {
-                for mutable in [false, true] {
-                    ctx.case(&format!("C10;chunks_from_slice{};N={K};L={l};E={}", if mutable { "_mut" } else { "" }, E::NAME), || chunks::<E, N>(mutable, l));
-                }
-            }
-            if E::NAME == "unit" && K > 0 {
-                for &l in &[u32::MAX as usize - 1, u32::MAX as usize, u32::MAX as usize + 1, (1usize << 32) + 7, (1usize << 33) + 1, (1usize << 40) + K + 1, isize::MAX as usize] {
-                    for mutable in [false, true] {
-                        ctx.case(&format!("C10;huge-zst{};N={K};L={l}", if mutable { "_mut" } else { "" }), || chunks_huge_zst::<N>(mutable, l));
-                    }
-                }
-            }
-            for count in 0..=5usize {
-                ctx.case(&format!("C10;from/into_chunks;N={K};count={count};E={}", E::NAME), || native_chunks::<E, K>(count));
-            }
+            c10_cases::<E, K>(ctx);
         });
     });
 }
